@@ -66,7 +66,7 @@ def check(ctx):
     ctx.note("specification", {k: v[:160] for k, v in docs.items()})
     ctx.rule("R13.1", "numba kernel == eq. polyak line 1 (direct double sum with area weights)", 1)
     ctx.rule("R13.2", "cupy kernel == the same sum (accelerated == direct)", 1)
-    ctx.rule("R13.3", "both call sites pass (J_site, weighted areas, xi*sites, xi*edge_centers, output) in parameter order", 2)
+    ctx.rule("R13.3", "both call sites pass (J_site, weighted areas, xi*sites, xi*edge_centers, output) in parameter order; J is the total current", 3)
     ctx.rule("R13.4", "Polyak step: dA = K - A_prev, v' = (1-beta) v + alpha dA, A' = A_prev + v', "
                       "error = max(|dA_i| / max(|A'_i|, 1e-20))", 3)
     ctx.rule("R13.5", "accepted steps are converged steps: loop exits are {error < tolerance, raise on iteration bound, "
@@ -113,6 +113,19 @@ def call_sites(ctx, fg):
                message=f"{fname} is called with {got}", consequence="areas/sites/edge centres are swapped: the kernel sums the wrong quantity")
     if n < 2:
         raise AnalysisError("expected a numba and a cupy kernel call in get_induced_vector_potential")
+    # the current handed to the screening step is the total (super + normal) current of the same iteration
+    repo = ctx.repo
+    fu = repo.func(SOLVER, "TDGLSolver.update")
+    calls = [c for c in own_nodes(fu.node) if isinstance(c, ast.Call) and norm(c.func) == "self.get_induced_vector_potential"]
+    ok = len(calls) == 1 and calls[0].args and isinstance(calls[0].args[0], ast.BinOp) and isinstance(calls[0].args[0].op, ast.Add) \
+        and {norm(calls[0].args[0].left), norm(calls[0].args[0].right)} == {"supercurrent", "normal_current"}
+    obs = [x for x in own_nodes(fu.node) if isinstance(x, ast.Assign) and isinstance(x.value, ast.Call) and norm(x.value.func) == "self.solve_for_observables"]
+    ok = ok and len(obs) == 1 and [norm(t) for t in obs[0].targets[0].elts] == ["mu", "supercurrent", "normal_current"] \
+        and obs[0].lineno < calls[0].lineno
+    ctx.ob("R13.3", "the screening step receives supercurrent + normal_current of the current iteration", ok,
+           detail=[norm(c)[:120] for c in calls], where=fu.fq, construct="current passed to get_induced_vector_potential",
+           loc=loc(fu, calls[0]) if calls else "", message="the induced potential is computed from something else than the total sheet current",
+           consequence="the stored induced potential does not correspond to the stored currents (normal current ignored, or stale currents)")
 
 
 def polyak(ctx, fg):
